@@ -156,12 +156,6 @@ def tryFd (P O : Table) (fd : Fd) : Option H :=
   | .notPresent => none
   | .notSpecified => P.tryFd fd
 
-/-- `replace_open_files(context.iter_fds())` -/
-def merged (P O : Table) : Table := fun fd =>
-  match tryFd P O fd with
-  | some h => .open h
-  | none => .notSpecified
-
 /-! ## redirections -/
 
 inductive Kind where
@@ -304,13 +298,11 @@ def runEcho (tag : Nat) (P O : Table) (s : Sys) : Sys × Nat :=
 
 /-! ## commands -/
 
-/-- result of running a command: the shell's table, the system, `$?`, and whether an error is
-propagating (`writeln!(stderr, ..)?` failing in a simple command whose redirection failed) -/
+/-- result of running a command: the shell's table, the system, `$?` -/
 structure Res where
   P : Table
   s : Sys
   status : Nat
-  abort : Bool
 
 def Sys.note (s : Sys) (n : Nat) : Sys := if n ∈ s.notes then s else { s with notes := s.notes ++ [n] }
 
@@ -318,13 +310,33 @@ def Sys.note (s : Sys) (n : Nat) : Sys := if n ∈ s.notes then s else { s with 
 def noteStd (P O : Table) (s : Sys) : Sys :=
   if [0, 1, 2].any (fun fd => childFd P O fd != (tryFd P O fd).map H.ofd) then s.note 1 else s
 
-/-- label 5: a function-definition redirection failed after an earlier one had changed descriptor 2 -/
-def noteDef (P O O2 : Table) (s : Sys) : Sys :=
-  if (tryFd P O 2).map H.ofd != (tryFd P O2 2).map H.ofd then s.note 5 else s
+/-- `own_redirected_fds`: the descriptors a successful redirection of the command itself changes
+(`redirect_fd` / `close_redirected_fd` in `setup_redirect`; the auxiliary slot of a process
+substitution is not among them) -/
+def ownFds : Redir → List Fd
+  | .file n k _ => [n.getD (defaultFd k)]
+  | .dup n input src dash =>
+    let fd := n.getD (if input then 0 else 1)
+    match src with
+    | .none => if dash then [fd] else []
+    | .fd m => if dash ∧ m ≠ fd then [fd, m] else [fd]
+    | .word _ => [1, 2]
+  | .outErr _ _ => [1, 2]
+  | .here n _ => [n.getD 0]
 
-/-- label 3: `exec` run with a non-empty table of enclosing redirections -/
-def noteExec (O : Table) (s : Sys) : Sys :=
-  if fds10.any (fun fd => O fd != .notSpecified) then s.note 3 else s
+/-- the `exec` builtin without a command: the shell's table with the command's own descriptors
+replaced by what the command sees there (`replace_open_files` keeps open entries only) -/
+def entryOf : Option H → Entry
+  | some h => .open h
+  | none => .notSpecified
+
+def persist (P O : Table) (own : List Fd) : Table := fun fd =>
+  entryOf (if fd ∈ own then tryFd P O fd else P.tryFd fd)
+
+/-- label 3: `exec` changes a descriptor that an enclosing command has redirected (the enclosing
+redirection keeps shadowing it until that command ends, and is not put back afterwards) -/
+def noteExec (O : Table) (rs : List Redir) (s : Sys) : Sys :=
+  if (rs.flatMap ownFds).any (fun fd => O fd != .notSpecified) then s.note 3 else s
 
 mutual
 inductive Cmd where
@@ -339,63 +351,55 @@ inductive Cmds where
   | cons (c : Cmd) (cs : Cmds)
 end
 
-/-- a simple command whose redirection failed: `writeln!(params.stderr(..), "error: {e}")?` — when the
-message cannot be written the I/O error propagates like any other error -/
-def failSimple (P O : Table) (s : Sys) : Res :=
-  let (s', ok) := writeErrB P O s
-  if ok then { P := P, s := s', status := 1, abort := false }
-  else { P := P, s := s'.note 4, status := 1, abort := true }
+/-- a simple command whose redirection failed: the message goes to the standard error in effect
+(if that is writable) and the command has status 1 -/
+def failSimple (P O : Table) (s : Sys) : Res := { P := P, s := writeErr P O s, status := 1 }
 
 mutual
 /-- `execute_in_pipeline` for one command; `O` is the `ExecutionParameters` table it is handed -/
 def run (nc : Bool) : Cmd → Table → Table → Sys → Res
   | .probe tag rs, P, O, s =>
     let (O', s', ok) := applyAll nc P O s rs
-    if ok then { P := P, s := runProbe tag (childFd P O') (noteStd P O' s'), status := 0, abort := false }
+    if ok then { P := P, s := runProbe tag (childFd P O') (noteStd P O' s'), status := 0 }
     else failSimple P O' s'
   | .echo tag rs, P, O, s =>
     let (O', s', ok) := applyAll nc P O s rs
-    if ok then let (s'', st) := runEcho tag P O' s'; { P := P, s := s'', status := st, abort := false }
+    if ok then let (s'', st) := runEcho tag P O' s'; { P := P, s := s'', status := st }
     else failSimple P O' s'
   | .exec rs, P, O, s =>
-    let (O', s', ok) := applyAll nc P O (noteExec O s) rs
-    if ok then { P := merged P O', s := s', status := 0, abort := false }
+    let (O', s', ok) := applyAll nc P O s rs
+    if ok then { P := persist P O' (rs.flatMap ownFds), s := noteExec O rs s', status := 0 }
     else failSimple P O' s'
   | .group body rs, P, O, s =>
     let (O', s', ok) := applyAll nc P O s rs
     if ok then runs nc body P O' s' 0
-    else { P := P, s := writeErr P O' s', status := 1, abort := false }
+    else failSimple P O' s'
   | .sub body rs, P, O, s =>
     let (O', s', ok) := applyAll nc P O s rs
     if ok then
       let r := runs nc body P O' s' 0
-      -- the subshell is a clone: its table is dropped; an error is reported on the subshell's stderr
-      if r.abort then { P := P, s := writeErr P O' r.s, status := 1, abort := false }
-      else { P := P, s := r.s, status := r.status, abort := false }
-    else { P := P, s := writeErr P O' s', status := 1, abort := false }
+      -- the subshell is a clone: its table is dropped
+      { P := P, s := r.s, status := r.status }
+    else failSimple P O' s'
   | .call body defrs rs, P, O, s =>
     let (O', s', ok) := applyAll nc P O s rs
     if ok then
       let (O'', s'', ok2) := applyAll nc P O' s' defrs
-      if ok2 then
-        let r := runs nc body P O'' s'' 0
-        -- the simple command took `params.stderr(shell)` before running the function
-        if r.abort then { P := r.P, s := writeErr P O' r.s, status := 1, abort := false } else r
-      else { P := P, s := writeErr P O' (noteDef P O' O'' s''), status := 1, abort := false }
+      if ok2 then runs nc body P O'' s'' 0
+      else failSimple P O'' s''
     else failSimple P O' s'
 /-- a command list; `st` is the status so far -/
 def runs (nc : Bool) : Cmds → Table → Table → Sys → Nat → Res
-  | .nil, P, _, s, st => { P := P, s := s, status := st, abort := false }
+  | .nil, P, _, s, st => { P := P, s := s, status := st }
   | .cons c cs, P, O, s, _ =>
     let r := run nc c P O s
-    if r.abort then r else runs nc cs r.P O r.s r.status
+    runs nc cs r.P O r.s r.status
 end
 
-/-- one line of the script at top level: an error that reaches the top is printed on the
-shell's own standard error and the rest of the line is dropped -/
+/-- one line of the script at top level -/
 def runLine (nc : Bool) (c : Cmd) (P : Table) (s : Sys) : Table × Sys × Nat :=
   let r := run nc c P emptyT s
-  if r.abort then (r.P, writeErr r.P emptyT r.s, 1) else (r.P, r.s, r.status)
+  (r.P, r.s, r.status)
 
 def statusLine (st : Nat) : Str := ['S'] ++ natToStr st
 
